@@ -368,6 +368,12 @@ func (ca *CertificateAuthority) upload(ctx context.Context, manifest *cpb.GCECer
 	}
 	// The key is fresh, so add it to the manifest.
 	if entry == nil {
+		if exists && !output.AllowOverwrite(ctx) {
+			// --keep_going kept an object that certifies some other key. The manifest entry
+			// depends directly on the upload, so there is nothing to keep going with.
+			return nil, status.Errorf(codes.AlreadyExists,
+				"object %q exists and was not overwritten, cannot record it for key version %q", name, keyVersionName)
+		}
 		entries := append(manifest.Entries, &cpb.GCECertificateManifest_Entry{
 			KeyVersionName: keyVersionName,
 			ObjectPath:     name,
